@@ -29,7 +29,7 @@ type Prop struct {
 	// Rule describes enumeration and the non-triviality predicate (evidence).
 	Rule string
 	// Bound describes the bound completed per tier.
-	Bound func(thorough bool) string
+	Bound       func(thorough bool) string
 	Assumptions []string
 	// Budget is the step budget per case (ticks); 0 = default.
 	Budget int64
@@ -76,19 +76,19 @@ type Violation struct {
 
 // Summary is what a worker prints (one JSON line) when its shard is done.
 type Summary struct {
-	Shard       string         `json:"shard"`
-	Evaluations int64          `json:"evaluations"`
-	States      int64          `json:"states"`
-	Transitions int64          `json:"transitions"`
-	Traces      int64          `json:"traces"`
-	NonTrivial  int64          `json:"nontrivial"`
+	Shard       string           `json:"shard"`
+	Evaluations int64            `json:"evaluations"`
+	States      int64            `json:"states"`
+	Transitions int64            `json:"transitions"`
+	Traces      int64            `json:"traces"`
+	NonTrivial  int64            `json:"nontrivial"`
 	Classes     map[string]int64 `json:"classes"`
-	Samples     []string       `json:"samples"`
-	Violations  []Violation    `json:"violations"`
-	NViolations int64          `json:"nviolations"`
-	MaxTicks    int64          `json:"max_ticks"`
+	Samples     []string         `json:"samples"`
+	Violations  []Violation      `json:"violations"`
+	NViolations int64            `json:"nviolations"`
+	MaxTicks    int64            `json:"max_ticks"`
 	Extra       map[string]int64 `json:"extra,omitempty"`
-	Incomplete  bool           `json:"incomplete,omitempty"`
+	Incomplete  bool             `json:"incomplete,omitempty"`
 }
 
 // T is the per-shard execution context handed to Prop.Run.
@@ -98,16 +98,19 @@ type T struct {
 	Shard    string
 	Seed     int64
 
-	sum      Summary
-	seen     map[uint64]struct{}
-	idx      int64
-	from     int64 // skip cases with index < from
-	only     string // replay: only the case with this key
-	careful  *bufio.Writer
-	verbose  bool
-	budget   int64
-	maxViol  int
+	sum       Summary
+	seen      map[uint64]struct{}
+	idx       int64
+	from      int64  // skip cases with index < from
+	only      string // replay: only the case with this key
+	careful   *bufio.Writer
+	verbose   bool
+	budget    int64
+	maxViol   int
 	replayHit bool
+	// Pattern, when set by the property before calling Case, is attached to a
+	// failure of that case (known-finding pattern id); it is reset by Case.
+	Pattern string
 }
 
 func key(desc string) (uint64, string) {
@@ -144,6 +147,8 @@ func (t *T) Replaying() bool { return t.only != "" }
 func (t *T) Case(desc string, nontrivial bool, run func() (string, *Fail)) {
 	i := t.idx
 	t.idx++
+	pattern := t.Pattern
+	t.Pattern = ""
 	if i < t.from {
 		return
 	}
@@ -179,6 +184,9 @@ func (t *T) Case(desc string, nontrivial bool, run func() (string, *Fail)) {
 			t.sum.Samples = append(t.sum.Samples, desc+" => "+class)
 		}
 	} else {
+		if f.Pattern == "" {
+			f.Pattern = pattern
+		}
 		t.sum.Classes["VIOLATION:"+f.Kind]++
 		t.sum.NViolations++
 		v := Violation{Property: t.Prop.ID, Tier: tierName(t.Thorough), Shard: t.Shard, Index: i, Key: k, Desc: desc, Fail: *f}
